@@ -133,7 +133,9 @@ def to_model(log, before, after):
             touched = (l[2], l[3])
             h = holders.get(touched)
             if h is None or not h["ids"]:
-                h = holders[touched] = dict(base=prev_snap[l[2]][l[3]] if l[2] < NOBJ else None, ids=[], dirty=False, all=[])
+                # the value just before this override is the previous snapshot's, unless scenarios were found
+                # stopped at this very entry (their reverts came in between and were not observed separately)
+                h = holders[touched] = dict(base=prev_snap[l[2]][l[3]] if l[2] < NOBJ and not stopped else None, ids=[], dirty=False, all=[])
             if l[1] not in h["ids"]:
                 h["ids"].append(l[1])
                 h["all"].append(l[1])
